@@ -8,9 +8,25 @@
 
   `d.wf` = every float leaf of the document carries well-formed shortest
   digits (what strconv yields; hypothesis about the trusted formatter).
+
+  Second part (section `edits`): the edits the property names — a value
+  altered, a member added or removed, array elements reordered — as functions
+  on documents (Model/JsonEdit.lean), the exact condition under which each
+  changes the content (Proofs/DigestEdits.lean), and the corollaries that each
+  of them, performed on the document of a calculated envelope at any depth, is
+  `Evident` (Spec/C08.lean) — with no hypothesis about the content left.
+
+  Third part (`namespace Expect`): the source of every function between the
+  document and the verdict of Validate, regenerated from /repo on every run
+  (Generated/DigestFacts.lean), pinned to what the models were written against.
 -/
 import GoblVerif.Model.Digest
+import GoblVerif.Spec.C08
+import GoblVerif.Proofs.DigestEdits
 import GoblVerif.Props.C07
+import GoblVerif.Generated.DigestFacts
+import GoblVerif.Generated.HeaderFacts
+import GoblVerif.Generated.EnvelopeFacts
 
 namespace GoblVerif.Props.C08
 open GoblVerif GoblVerif.Spec.C07 GoblVerif.C14n GoblVerif.Digest
@@ -142,5 +158,717 @@ example : ∃ (h : Hash) (d d' : J) (dg : Dig), d.wf = true ∧ d'.wf = true ∧
   ⟨⟨id, fun _ _ h => h⟩, .obj (.cons [0x61] (.int 1) .nil), .obj (.cons [0x61] (.int 2) .nil),
     ⟨algSHA256, [0x7B, 0x22, 0x61, 0x22, 0x3A, 0x31, 0x7D]⟩, by decide, by decide, by decide,
     (by intro h; have := congrArg text h; revert this; decide), by decide⟩
+
+/-! ## the edits the property names change the content
+
+"a value altered, a member added or removed, array elements reordered": the edit functions are
+those of Model/JsonEdit.lean (`KL.set`, `KL.insertAt`, `KL.erase`, `JL.swap`, and `J.set p` for the
+same at the end of a path `p` of member names and array indices).  Each theorem says exactly when
+the edit changes the logical content `norm` — so that the theorems about digests below need no
+hypothesis of the form `norm d ≠ norm d'`.  A member name addresses the first member of that name;
+no theorem of this section needs the names to be distinct (the model keeps both of two equal
+names, as c14n does), so each holds in particular for the documents `json.Marshal` writes. -/
+section edits
+open GoblVerif.Edit GoblVerif.Proofs.DigestEdits GoblVerif.Spec.C08
+
+/-- the value `v` of member `k` replaced by `v'`: the object keeps its content iff `v'` has the
+    content of `v` (also when one of the two is null: that is a member removed or added) -/
+theorem set_member_content_iff (k : Str) (kvs : KL) (v v' : J) (hg : KL.get? k kvs = some v) :
+    norm (.obj (KL.set k v' kvs)) = norm (.obj kvs) ↔ norm v' = norm v :=
+  norm_obj_set_iff k kvs v v' hg
+
+/-- a value altered -/
+theorem set_member_changes_content (k : Str) (kvs : KL) (v v' : J) (hg : KL.get? k kvs = some v)
+    (hne : norm v' ≠ norm v) : norm (.obj (KL.set k v' kvs)) ≠ norm (.obj kvs) :=
+  fun h => hne ((norm_obj_set_iff k kvs v v' hg).mp h)
+
+/-- … at any depth: the value at the end of a path replaced; the document keeps its content iff the
+    new value has the content of the old one -/
+theorem edit_at_path_content_iff (p : Path) (d v v' : J) (hg : J.get? p d = some v) :
+    norm (J.set p v' d) = norm d ↔ norm v' = norm v :=
+  norm_set_iff p d v v' hg
+
+theorem edit_at_path_changes_content (p : Path) (d v v' : J) (hg : J.get? p d = some v)
+    (hne : norm v' ≠ norm v) : norm (J.set p v' d) ≠ norm d :=
+  fun h => hne ((norm_set_iff p d v v' hg).mp h)
+
+/-- a leaf altered at any depth — another integer, another string, the other truth value, another
+    float64, a number of another kind (`1` is an integer, `1.0` is a float64), a leaf of another
+    type, null against anything else — changes the content of the document -/
+theorem leaf_altered_changes_content (p : Path) (d : J) (a a' : Atom) (hg : J.get? p d = some (.atom a))
+    (hne : a' ≠ a) : norm (J.set p (.atom a') d) ≠ norm d := by
+  apply edit_at_path_changes_content p d (.atom a) (.atom a') hg
+  intro h
+  rw [norm_atom, norm_atom] at h
+  exact hne (J.atom.inj h)
+
+/-- a member added (anywhere among the members, under any name): the object keeps its content
+    iff the value of the new member is null -/
+theorem add_member_content_iff (n : Nat) (k : Str) (v : J) (kvs : KL) :
+    norm (.obj (KL.insertAt n k v kvs)) = norm (.obj kvs) ↔ v.isNull = true :=
+  norm_obj_insert_iff n k v kvs
+
+theorem add_member_changes_content (n : Nat) (k : Str) (v : J) (kvs : KL) (hv : v.isNull = false) :
+    norm (.obj (KL.insertAt n k v kvs)) ≠ norm (.obj kvs) := by
+  intro h; rw [(norm_obj_insert_iff n k v kvs).mp h] at hv; exact absurd hv (by decide)
+
+/-- a member removed: the object keeps its content iff the value of that member was null -/
+theorem remove_member_content_iff (k : Str) (kvs : KL) (v : J) (hg : KL.get? k kvs = some v) :
+    norm (.obj (KL.erase k kvs)) = norm (.obj kvs) ↔ v.isNull = true :=
+  norm_obj_erase_iff k kvs v hg
+
+theorem remove_member_changes_content (k : Str) (kvs : KL) (v : J) (hg : KL.get? k kvs = some v)
+    (hv : v.isNull = false) : norm (.obj (KL.erase k kvs)) ≠ norm (.obj kvs) := by
+  intro h; rw [(norm_obj_erase_iff k kvs v hg).mp h] at hv; exact absurd hv (by decide)
+
+/-- two array elements `i ≠ j` exchanged: the array keeps its content iff the two elements have
+    the same content (arrays are ordered: `norm` keeps the order of the elements) -/
+theorem swap_elements_content_iff (i j : Nat) (xs : JL) (a b : J) (hij : i ≠ j)
+    (hi : JL.get? i xs = some a) (hj : JL.get? j xs = some b) :
+    norm (.arr (JL.swap i j xs)) = norm (.arr xs) ↔ norm a = norm b :=
+  norm_arr_swap_iff i j xs a b hij hi hj
+
+theorem swap_elements_changes_content (i j : Nat) (xs : JL) (a b : J) (hij : i ≠ j)
+    (hi : JL.get? i xs = some a) (hj : JL.get? j xs = some b) (hne : norm a ≠ norm b) :
+    norm (.arr (JL.swap i j xs)) ≠ norm (.arr xs) :=
+  fun h => hne ((norm_arr_swap_iff i j xs a b hij hi hj).mp h)
+
+/-- array elements reordered in any way (rotated, reversed, permuted): as soon as some position
+    holds another content than before, the content of the array has changed -/
+theorem reorder_changes_content (xs ys : JL) (i : Nat) (a b : J)
+    (hx : JL.get? i xs = some a) (hy : JL.get? i ys = some b) (hne : norm b ≠ norm a) :
+    norm (.arr ys) ≠ norm (.arr xs) :=
+  fun h => hne (norm_arr_position ys xs i b a h hy hx)
+
+/-- an element dropped or added -/
+theorem resize_changes_content (xs ys : JL) (hl : ys.toList.length ≠ xs.toList.length) :
+    norm (.arr ys) ≠ norm (.arr xs) :=
+  fun h => hl (norm_arr_length ys xs h)
+
+/-- the other way round: the content of a document determines the content of the value at every
+    path (member names along the path used once in their objects, as in everything `json.Marshal`
+    writes) -/
+theorem content_determines_path (p : Path) (d1 d2 v1 v2 : J) (h : norm d1 = norm d2)
+    (c1 : J.distinctAlong p d1 = true) (c2 : J.distinctAlong p d2 = true)
+    (g1 : J.get? p d1 = some v1) (g2 : J.get? p d2 = some v2) : norm v1 = norm v2 :=
+  norm_eq_get p d1 d2 v1 v2 h c1 c2 g1 g2
+
+/-- the oracle of Spec/C08 (`applyOp`: the edit performed, and "does the content change?" decided by
+    looking at the edited place only — this is what the driver answers to the harness) is right:
+    its verdict is true exactly when the edited document has another content -/
+theorem edit_verdict_sound (op : Op) (p : Path) (d d' : J) (c : Bool)
+    (ha : applyOp op p d = some (d', c)) : c = true ↔ norm d' ≠ norm d := by
+  have hs : ∀ a b : J, sameContent a b = true ↔ norm a = norm b := fun a b => J_beq_iff _ _
+  cases op with
+  | set v' =>
+    simp only [applyOp] at ha
+    cases hg : J.get? p d with
+    | none => simp [hg] at ha
+    | some v =>
+      simp only [hg, Option.some.injEq, Prod.mk.injEq] at ha
+      obtain ⟨rfl, rfl⟩ := ha
+      rw [Ne, edit_at_path_content_iff p d v v' hg, ← hs]
+      cases sameContent v' v <;> simp
+  | ins n k v =>
+    simp only [applyOp] at ha
+    cases hg : J.get? p d with
+    | none => simp [hg] at ha
+    | some w =>
+      cases w with
+      | atom _ => simp [hg] at ha
+      | arr _ => simp [hg] at ha
+      | obj kvs =>
+        simp only [hg, Option.some.injEq, Prod.mk.injEq] at ha
+        obtain ⟨rfl, rfl⟩ := ha
+        rw [Ne, edit_at_path_content_iff p d _ _ hg, add_member_content_iff]
+        cases v.isNull <;> simp
+  | del k =>
+    simp only [applyOp] at ha
+    cases hg : J.get? p d with
+    | none => simp [hg] at ha
+    | some w =>
+      cases w with
+      | atom _ => simp [hg] at ha
+      | arr _ => simp [hg] at ha
+      | obj kvs =>
+        simp only [hg] at ha
+        cases hk : KL.get? k kvs with
+        | none => simp [hk] at ha
+        | some x =>
+          simp only [hk, Option.some.injEq, Prod.mk.injEq] at ha
+          obtain ⟨rfl, rfl⟩ := ha
+          rw [Ne, edit_at_path_content_iff p d _ _ hg, remove_member_content_iff k kvs x hk]
+          cases x.isNull <;> simp
+  | swap i j =>
+    simp only [applyOp] at ha
+    cases hg : J.get? p d with
+    | none => simp [hg] at ha
+    | some w =>
+      cases w with
+      | atom _ => simp [hg] at ha
+      | obj _ => simp [hg] at ha
+      | arr xs =>
+        simp only [hg] at ha
+        cases hi : JL.get? i xs with
+        | none => simp [hi] at ha
+        | some a =>
+          cases hj : JL.get? j xs with
+          | none => simp [hi, hj] at ha
+          | some b =>
+            simp only [hi, hj] at ha
+            by_cases hij : i = j
+            · simp [hij] at ha
+            · simp only [hij, if_false, Option.some.injEq, Prod.mk.injEq] at ha
+              obtain ⟨rfl, rfl⟩ := ha
+              rw [Ne, edit_at_path_content_iff p d _ _ hg, swap_elements_content_iff i j xs a b hij hi hj, ← hs]
+              cases sameContent a b <;> simp
+
+/-! ## … and are evident (Spec/C08.lean: `Evident`): no hypothesis about the content is left -/
+
+/-- a calculated envelope carries the digest of its document -/
+theorem calculated_digest (h : Hash) (docCalc : J → Option J) (e0 e : Env)
+    (hc : calculate h docCalc e0 = some e) : ∃ dg, e.dig = some dg ∧ digest h e.doc = some dg := by
+  unfold calculate at hc
+  cases h1 : docCalc e0.doc with
+  | none => simp [h1] at hc
+  | some d =>
+    cases h2 : digest h d with
+    | none => simp [h1, h2] at hc
+    | some dg =>
+      simp only [h1, h2, Option.some.injEq] at hc
+      subst hc
+      exact ⟨dg, rfl, h2⟩
+
+/-- the bridge: a document of another content in a calculated envelope is evident -/
+theorem changed_content_evident (h : Hash) (docValid : J → Bool) (docCalc : J → Option J) (e0 e : Env)
+    (d' : J) (hc : calculate h docCalc e0 = some e) (hw : e.doc.wf = true) (hw' : d'.wf = true)
+    (hne : norm d' ≠ norm e.doc) : Evident h docValid e d' := by
+  obtain ⟨dg, hd, hdig⟩ := calculated_digest h docCalc e0 e hc
+  have t := tamper_detected h docValid e.doc d' dg hw hw' hdig (fun x => hne x.symm)
+  unfold Evident tampered
+  rw [hd]
+  refine ⟨t.1, t.2, ?_⟩
+  intro dg' h2 x
+  exact recalc_changes_digest h e.doc d' hw hw' dg dg' hdig h2 (fun x => hne x.symm) (Option.some.inj x).symm
+
+/-- the value at any path of the document of a calculated envelope replaced by a value of another
+    content: evident.  Every theorem below is an instance. -/
+theorem edit_at_path_detected (h : Hash) (docValid : J → Bool) (docCalc : J → Option J) (e0 e : Env)
+    (p : Path) (v v' : J) (hc : calculate h docCalc e0 = some e) (hw : e.doc.wf = true) (hw' : v'.wf = true)
+    (hg : J.get? p e.doc = some v) (hne : norm v' ≠ norm v) :
+    Evident h docValid e (J.set p v' e.doc) :=
+  changed_content_evident h docValid docCalc e0 e _ hc hw (wf_set v' hw' p e.doc hw)
+    (edit_at_path_changes_content p e.doc v v' hg hne)
+
+/-- a value altered: any leaf, at any depth, replaced by any other leaf -/
+theorem value_altered_detected (h : Hash) (docValid : J → Bool) (docCalc : J → Option J) (e0 e : Env)
+    (p : Path) (a a' : Atom) (hc : calculate h docCalc e0 = some e) (hw : e.doc.wf = true) (hw' : a'.wf = true)
+    (hg : J.get? p e.doc = some (.atom a)) (hne : a' ≠ a) :
+    Evident h docValid e (J.set p (.atom a') e.doc) :=
+  changed_content_evident h docValid docCalc e0 e _ hc hw (wf_set (.atom a') hw' p e.doc hw)
+    (leaf_altered_changes_content p e.doc a a' hg hne)
+
+/-- a member with a value other than null added to any object of the document -/
+theorem member_added_detected (h : Hash) (docValid : J → Bool) (docCalc : J → Option J) (e0 e : Env)
+    (p : Path) (kvs : KL) (n : Nat) (k : Str) (v : J) (hc : calculate h docCalc e0 = some e)
+    (hw : e.doc.wf = true) (hwv : v.wf = true) (hg : J.get? p e.doc = some (.obj kvs)) (hv : v.isNull = false) :
+    Evident h docValid e (J.set p (.obj (KL.insertAt n k v kvs)) e.doc) :=
+  edit_at_path_detected h docValid docCalc e0 e p (.obj kvs) _ hc hw
+    (wf_insertAt k v hwv n kvs (by simpa [J.wf] using wf_get? p e.doc _ hg hw)) hg
+    (add_member_changes_content n k v kvs hv)
+
+/-- a member whose value is not null removed from any object of the document -/
+theorem member_removed_detected (h : Hash) (docValid : J → Bool) (docCalc : J → Option J) (e0 e : Env)
+    (p : Path) (kvs : KL) (k : Str) (v : J) (hc : calculate h docCalc e0 = some e)
+    (hw : e.doc.wf = true) (hg : J.get? p e.doc = some (.obj kvs)) (hk : KL.get? k kvs = some v)
+    (hv : v.isNull = false) :
+    Evident h docValid e (J.set p (.obj (KL.erase k kvs)) e.doc) :=
+  edit_at_path_detected h docValid docCalc e0 e p (.obj kvs) _ hc hw
+    (wf_erase k kvs (by simpa [J.wf] using wf_get? p e.doc _ hg hw)) hg
+    (remove_member_changes_content k kvs v hk hv)
+
+/-- two elements of different content exchanged in any array of the document -/
+theorem elements_swapped_detected (h : Hash) (docValid : J → Bool) (docCalc : J → Option J) (e0 e : Env)
+    (p : Path) (xs : JL) (i j : Nat) (a b : J) (hc : calculate h docCalc e0 = some e)
+    (hw : e.doc.wf = true) (hg : J.get? p e.doc = some (.arr xs)) (hij : i ≠ j)
+    (hi : JL.get? i xs = some a) (hj : JL.get? j xs = some b) (hne : norm a ≠ norm b) :
+    Evident h docValid e (J.set p (.arr (JL.swap i j xs)) e.doc) :=
+  edit_at_path_detected h docValid docCalc e0 e p (.arr xs) _ hc hw
+    (wf_swap i j xs (by simpa [J.wf] using wf_get? p e.doc _ hg hw)) hg
+    (swap_elements_changes_content i j xs a b hij hi hj hne)
+
+/-- the elements of any array of the document rearranged (or some dropped, or added) so that some
+    position holds another content than before -/
+theorem elements_reordered_detected (h : Hash) (docValid : J → Bool) (docCalc : J → Option J) (e0 e : Env)
+    (p : Path) (xs ys : JL) (i : Nat) (a b : J) (hc : calculate h docCalc e0 = some e)
+    (hw : e.doc.wf = true) (hwy : ys.wf = true) (hg : J.get? p e.doc = some (.arr xs))
+    (hx : JL.get? i xs = some a) (hy : JL.get? i ys = some b) (hne : norm b ≠ norm a) :
+    Evident h docValid e (J.set p (.arr ys) e.doc) :=
+  edit_at_path_detected h docValid docCalc e0 e p (.arr xs) (.arr ys) hc hw hwy hg
+    (reorder_changes_content xs ys i a b hx hy hne)
+
+/-- after recalculating, with the document's own calculation `docCalc` doing whatever it does to the
+    changed document: if the value at the path still has another content than it had in the
+    calculated envelope, the new digest is not the previous one -/
+theorem recalculated_digest_differs (h : Hash) (docCalc : J → Option J) (e0 e e2 : Env) (d' : J)
+    (p : Path) (v v2 : J) (hc : calculate h docCalc e0 = some e)
+    (hc2 : calculate h docCalc (tampered e d') = some e2)
+    (hw : e.doc.wf = true) (hw2 : e2.doc.wf = true)
+    (c1 : J.distinctAlong p e.doc = true) (c2 : J.distinctAlong p e2.doc = true)
+    (g1 : J.get? p e.doc = some v) (g2 : J.get? p e2.doc = some v2) (hne : norm v2 ≠ norm v) :
+    e2.dig ≠ e.dig := by
+  obtain ⟨dg, hd, hdig⟩ := calculated_digest h docCalc e0 e hc
+  obtain ⟨dg2, hd2, hdig2⟩ := calculated_digest h docCalc _ e2 hc2
+  rw [hd, hd2]
+  intro x
+  have x := Option.some.inj x
+  subst x
+  have := digest_injective h e2.doc e.doc hw2 hw dg2 hdig2 hdig
+  exact hne (norm_eq_get p e2.doc e.doc v2 v this c2 c1 g2 g1)
+
+/-- … in particular when the calculation leaves the edited document as it is -/
+theorem recalculated_fixpoint_digest_differs (h : Hash) (docCalc : J → Option J) (e0 e e2 : Env)
+    (p : Path) (v v' : J) (hc : calculate h docCalc e0 = some e)
+    (hfix : docCalc (J.set p v' e.doc) = some (J.set p v' e.doc))
+    (hc2 : calculate h docCalc (tampered e (J.set p v' e.doc)) = some e2)
+    (hw : e.doc.wf = true) (hw' : v'.wf = true)
+    (hg : J.get? p e.doc = some v) (hne : norm v' ≠ norm v) : e2.dig ≠ e.dig := by
+  have ev := edit_at_path_detected h (fun _ => true) docCalc e0 e p v v' hc hw hw' hg hne
+  unfold calculate tampered at hc2
+  simp only [hfix] at hc2
+  cases h2 : digest h (J.set p v' e.doc) with
+  | none => simp [h2] at hc2
+  | some dg' =>
+    simp only [h2, Option.some.injEq] at hc2
+    subst hc2
+    exact ev.2.2 dg' h2
+
+/-! non-vacuity.  One calculated envelope (identity "hash", a calculation that leaves the document
+    alone) with document `{"a":[1,{"b":"x","n":null}],"c":1.5}` and, for every theorem above, an edit
+    that satisfies its hypotheses; the last example shows the verdict of the model on one of them. -/
+
+example : KL.get? [0x62] (.cons [0x62] (.str [0x78]) (.cons [0x6E] .null .nil)) = some (.str [0x78]) ∧
+    norm (.str [0x79]) ≠ norm (.str [0x78]) :=
+  ⟨rfl, by intro h; have := congrArg text h; revert this; decide⟩
+
+/-- `1` and `1.0` are different contents (an integer and a float64), `1.0` and `1e0` are one (the model
+    of a float is the float64's shortest digits: both are `1` × 10^0) -/
+example : (Atom.flt false [1] 0) ≠ (Atom.int 1) ∧ (Atom.flt false [1] 0).wf = true ∧
+    canonChars (.int 1) = some [0x31] ∧ canonChars (.flt false [1] 0) = some [0x31, 0x2E, 0x30, 0x45, 0x30] := by
+  decide
+
+example : ∃ (h : Hash) (docCalc : J → Option J) (e0 e : Env) (p : Path) (a a' : Atom) (kvs : KL) (xs : JL),
+    calculate h docCalc e0 = some e ∧ e.doc.wf = true ∧
+    -- value_altered_detected, edit_at_path_detected, recalculated_fixpoint_digest_differs
+    J.get? p e.doc = some (.atom a) ∧ a'.wf = true ∧ a' ≠ a ∧
+    docCalc (J.set p (.atom a') e.doc) = some (J.set p (.atom a') e.doc) ∧
+    (∃ e2, calculate h docCalc (tampered e (J.set p (.atom a') e.doc)) = some e2 ∧
+      -- recalculated_digest_differs
+      e2.doc.wf = true ∧ J.distinctAlong p e.doc = true ∧ J.distinctAlong p e2.doc = true ∧
+      J.get? p e2.doc = some (.atom a')) ∧
+    -- member_added_detected, member_removed_detected
+    J.get? [.key [0x61], .idx 1] e.doc = some (.obj kvs) ∧ KL.get? [0x62] kvs = some (.str [0x78]) ∧
+    (J.str [0x78]).isNull = false ∧
+    -- elements_swapped_detected, elements_reordered_detected
+    J.get? [.key [0x61]] e.doc = some (.arr xs) ∧ JL.get? 0 xs = some (.int 1) ∧
+    JL.get? 1 xs = some (.obj kvs) ∧ JL.get? 0 (JL.swap 0 1 xs) = some (.obj kvs) ∧
+    norm (.int 1) ≠ norm (.obj kvs) :=
+  ⟨⟨id, fun _ _ h => h⟩, some,
+    ⟨none, .obj (.cons [0x61] (.arr (.cons (.int 1) (.cons (.obj (.cons [0x62] (.str [0x78]) (.cons [0x6E] .null .nil))) .nil)))
+      (.cons [0x63] (.flt false [1, 5] 0) .nil))⟩,
+    _, [.key [0x61], .idx 1, .key [0x62]], .str [0x78], .str [0x79], _, _,
+    rfl, by decide, rfl, by decide, by decide, rfl, ⟨_, rfl, by decide, by decide, by decide, rfl⟩,
+    rfl, rfl, rfl, rfl, rfl, rfl, rfl, by intro h; have := congrArg text h; revert this; decide⟩
+
+/-- `edit_verdict_sound` is not vacuous: the oracle performs each kind of edit on that document; a string
+    altered, a member added, a member removed, two elements exchanged change the content, a null member
+    added or removed does not -/
+example :
+    let d : J := .obj (.cons [0x61] (.arr (.cons (.int 1) (.cons (.obj (.cons [0x62] (.str [0x78]) (.cons [0x6E] .null .nil))) .nil)))
+      (.cons [0x63] (.flt false [1, 5] 0) .nil))
+    let verdict (op : Op) (p : Path) : Option Bool := (applyOp op p d).map (·.2)
+    verdict (.set (.str [0x79])) [.key [0x61], .idx 1, .key [0x62]] = some true ∧
+    verdict (.set (.flt false [1, 5] 0)) [.key [0x63]] = some false ∧
+    verdict (.ins 0 [0x7A] (.int 5)) [] = some true ∧ verdict (.ins 7 [0x7A] .null) [.key [0x61], .idx 1] = some false ∧
+    verdict (.del [0x62]) [.key [0x61], .idx 1] = some true ∧ verdict (.del [0x6E]) [.key [0x61], .idx 1] = some false ∧
+    verdict (.swap 0 1) [.key [0x61]] = some true ∧ verdict (.swap 0 0) [.key [0x61]] = none ∧
+    verdict (.del [0x7A]) [] = none := by decide
+
+/-- the model's verdict on the tampered envelope of that example: the digest error -/
+example :
+    let d : J := .obj (.cons [0x61] (.arr (.cons (.int 1) (.cons (.obj (.cons [0x62] (.str [0x78]) (.cons [0x6E] .null .nil))) .nil)))
+      (.cons [0x63] (.flt false [1, 5] 0) .nil))
+    let h : Hash := ⟨id, fun _ _ h => h⟩
+    ∀ e, calculate h some ⟨none, d⟩ = some e →
+      validate h (fun _ => true) (tampered e (J.set [.key [0x61], .idx 1, .key [0x62]] (.str [0x79]) e.doc)) = .digest ∧
+      validate h (fun _ => true) (tampered e (J.set [.key [0x61], .idx 1] (.obj (KL.erase [0x6E] (.cons [0x62] (.str [0x78]) (.cons [0x6E] .null .nil)))) e.doc)) = .ok := by
+  intro d h e he
+  have : e = ⟨digest h d, d⟩ := by
+    have h2 : calculate h some ⟨none, d⟩ = some ⟨digest h d, d⟩ := rfl
+    rw [h2] at he; exact (Option.some.inj he).symm
+  subst this
+  decide
+
+end edits
+
+/-! ## expectations over facts regenerated from /repo on every run
+
+How the digest is computed and compared (`Generated/DigestFacts.lean`, extractor
+`harness/cmd/extract/digest.go`; re-pinned by hand with `tools/pin_digest_expect.py`): calls, branch
+conditions, statements, loop headers — and for the marshallers of c14n the bytes written — in source
+order, of every function between the document of an envelope and the verdict of `Validate`.
+`Model/Digest.lean` (and `Model/C14n.lean`) mirror them by hand; a change to one of these functions
+breaks its obligation here even when no swept edit shows a difference (`./check C08` then searches for
+a witness). -/
+namespace Expect
+open GoblVerif.Generated.Digest
+
+/-- Envelope.Digest: json.Marshal of the document, c14n.CanonicalJSON of those bytes,
+    dsig.NewSHA256Digest of the canonical bytes; a marshalling failure is ErrMarshal, a canonicalisation
+    failure ErrInternal (model `digest`: `(canon d).map (sha256Digest h)`, `none` = the internal error) -/
+theorem Envelope_Digest_as_modelled :
+    calls_Envelope_Digest =
+      ["Marshal", "WithCause", "NewReader", "CanonicalJSON", "WithReason", "NewSHA256Digest"] ∧
+    conds_Envelope_Digest =
+      ["err != nil", "err != nil"] ∧
+    stmts_Envelope_Digest =
+      ["data, err := json.Marshal(e.Document)", "return nil, ErrMarshal.WithCause(err)", "r := bytes.NewReader(data)", "cd, err := c14n.CanonicalJSON(r)", "return nil, ErrInternal.WithReason(\"canonical JSON error: %w\", err)", "return dsig.NewSHA256Digest(cd), nil"] ∧
+    loops_Envelope_Digest = [] :=
+  ⟨rfl, rfl, rfl, rfl⟩
+
+/-- Envelope.verifyDigest: the header's digest against a freshly computed one; a failure of Digest is
+    passed on, a failure of Equals becomes ErrDigest (model `verifyDigest`) -/
+theorem Envelope_verifyDigest_as_modelled :
+    calls_Envelope_verifyDigest =
+      ["Digest", "Equals", "WithCause"] ∧
+    conds_Envelope_verifyDigest =
+      ["err != nil", "err := d1.Equals(d2); err != nil"] ∧
+    stmts_Envelope_verifyDigest =
+      ["d1 := e.Head.Digest", "d2, err := e.Digest()", "return err", "err := d1.Equals(d2)", "return ErrDigest.WithCause(err)", "return nil"] ∧
+    loops_Envelope_verifyDigest = [] :=
+  ⟨rfl, rfl, rfl, rfl⟩
+
+/-- Envelope.Validate is ValidateWithContext with the background context -/
+theorem Envelope_Validate_as_modelled :
+    calls_Envelope_Validate =
+      ["ValidateWithContext", "Background"] ∧
+    conds_Envelope_Validate = [] ∧
+    stmts_Envelope_Validate =
+      ["return e.ValidateWithContext(context.Background())"] ∧
+    loops_Envelope_Validate = [] :=
+  ⟨rfl, rfl, rfl, rfl⟩
+
+/-- Envelope.ValidateWithContext: structural validation of schema, head, document and signatures first;
+    only when that passes, verifyDigest — and its verdict is the verdict (model `validate`:
+    `.validation` before `verifyDigest`) -/
+theorem Envelope_ValidateWithContext_as_modelled :
+    calls_Envelope_ValidateWithContext =
+      ["len", "SignedContext", "ValidateStructWithContext", "Field", "Field", "Field", "Field", "Each", "wrapError", "wrapError", "verifyDigest"] ∧
+    conds_Envelope_ValidateWithContext =
+      ["len(e.Signatures) > 0", "err != nil"] ∧
+    stmts_Envelope_ValidateWithContext =
+      ["ctx = internal.SignedContext(ctx)", "err := validation.ValidateStructWithContext(ctx, e, validation.Field(&e.Schema, validation.Required), validation.Field(&e.Head, validation.Required), validation.Field(&e.Document, validation.Required), validation.Field(&e.Signatures, validation.Each(validation.Required)), )", "return wrapError(err)", "return wrapError(e.verifyDigest())"] ∧
+    loops_Envelope_ValidateWithContext = [] :=
+  ⟨rfl, rfl, rfl, rfl⟩
+
+/-- Envelope.Calculate refuses an absent or empty document and otherwise is `calculate` -/
+theorem Envelope_Calculate_as_modelled :
+    calls_Envelope_Calculate =
+      ["IsEmpty", "calculate"] ∧
+    conds_Envelope_Calculate =
+      ["e.Document == nil", "e.Document.IsEmpty()"] ∧
+    stmts_Envelope_Calculate =
+      ["return ErrNoDocument", "return ErrNoDocument", "return e.calculate()"] ∧
+    loops_Envelope_Calculate = [] :=
+  ⟨rfl, rfl, rfl, rfl⟩
+
+/-- Envelope.calculate: the document calculates itself first, then — after the header exists — the
+    digest is taken of the calculated document and stored in the header (model `calculate`) -/
+theorem Envelope_calculate_as_modelled :
+    calls_Envelope_calculate =
+      ["Calculate", "WithCause", "NewHeader", "IsZero", "V7", "Digest"] ∧
+    conds_Envelope_calculate =
+      ["err := e.Document.Calculate(); err != nil", "e.Head == nil", "e.Head.UUID.IsZero()", "err != nil"] ∧
+    stmts_Envelope_calculate =
+      ["e.Schema = EnvelopeSchema", "err := e.Document.Calculate()", "return ErrCalculation.WithCause(err)", "e.Head = head.NewHeader()", "e.Head.UUID = uuid.V7()", "e.Head.Digest, err = e.Digest()", "return err", "return nil"] ∧
+    loops_Envelope_calculate = [] :=
+  ⟨rfl, rfl, rfl, rfl⟩
+
+/-- dsig.NewSHA256Digest: one SHA-256 over the whole of the data handed in (no loop, no branch),
+    hexadecimal, under the algorithm name DigestSHA256 (model `sha256Digest`: `⟨algSHA256, h.H data⟩`,
+    the hash applied once to all the bytes) -/
+theorem dsig_NewSHA256Digest_as_modelled :
+    calls_dsig_NewSHA256Digest =
+      ["Sum256", "EncodeToString"] ∧
+    conds_dsig_NewSHA256Digest = [] ∧
+    stmts_dsig_NewSHA256Digest =
+      ["sum := sha256.Sum256(data)", "return &Digest{ Algorithm: DigestSHA256, Value: hex.EncodeToString(sum[:]), }"] ∧
+    loops_dsig_NewSHA256Digest = [] :=
+  ⟨rfl, rfl, rfl, rfl⟩
+
+/-- Digest.Equals: algorithm names first, then values, by `!=` on the strings (model `Dig.equals`) -/
+theorem dsig_Digest_Equals_as_modelled :
+    calls_dsig_Digest_Equals =
+      ["New", "New"] ∧
+    conds_dsig_Digest_Equals =
+      ["d.Algorithm != d2.Algorithm", "d.Value != d2.Value"] ∧
+    stmts_dsig_Digest_Equals =
+      ["return errors.New(\"algorithm mismatch\")", "return errors.New(\"mismatch\")", "return nil"] ∧
+    loops_dsig_Digest_Equals = [] :=
+  ⟨rfl, rfl, rfl, rfl⟩
+
+/-- c14n.CanonicalJSON: UnmarshalJSON of the reader, MarshalJSON of what it returned — nothing in
+    between (model `canon`; the two halves are C07's) -/
+theorem c14n_CanonicalJSON_as_modelled :
+    calls_c14n_CanonicalJSON =
+      ["UnmarshalJSON", "MarshalJSON"] ∧
+    conds_c14n_CanonicalJSON =
+      ["err != nil"] ∧
+    stmts_c14n_CanonicalJSON =
+      ["obj, err := UnmarshalJSON(src)", "return nil, err", "return obj.MarshalJSON()"] ∧
+    loops_c14n_CanonicalJSON = [] :=
+  ⟨rfl, rfl, rfl, rfl⟩
+
+/-- c14n.UnmarshalJSON, the entry point of the reader (the same shape C07 pins: encoding check, decoder
+    with UseNumber, one value, nothing after it) -/
+theorem c14n_UnmarshalJSON_as_modelled :
+    calls_c14n_UnmarshalJSON =
+      ["ReadAll", "checkEncoding", "NewDecoder", "NewReader", "UseNumber", "handleNextToken", "New", "Token", "New"] ∧
+    conds_c14n_UnmarshalJSON =
+      ["err != nil", "err := checkEncoding(data); err != nil", "err != nil", "res == nil", "_, err := dec.Token(); err != io.EOF", "err != nil"] ∧
+    stmts_c14n_UnmarshalJSON =
+      ["data, err := io.ReadAll(src)", "return nil, err", "err := checkEncoding(data)", "return nil, err", "dec := json.NewDecoder(bytes.NewReader(data))", "res, err := handleNextToken(dec)", "return nil, err", "return nil, errors.New(\"unexpected end of JSON input\")", "_, err := dec.Token()", "return nil, err", "return nil, errors.New(\"unexpected data after top-level value\")", "return res, nil"] ∧
+    loops_c14n_UnmarshalJSON = [] :=
+  ⟨rfl, rfl, rfl, rfl⟩
+
+/-- c14n.MarshalJSON (canonical JSON of a Go value) goes through the same CanonicalJSON -/
+theorem c14n_MarshalJSON_as_modelled :
+    calls_c14n_MarshalJSON =
+      ["new", "NewEncoder", "Encode", "Errorf", "CanonicalJSON"] ∧
+    conds_c14n_MarshalJSON =
+      ["err := enc.Encode(src); err != nil"] ∧
+    stmts_c14n_MarshalJSON =
+      ["data := new(bytes.Buffer)", "enc := json.NewEncoder(data)", "err := enc.Encode(src)", "return nil, fmt.Errorf(\"encoding: %w\", err)", "return CanonicalJSON(data)"] ∧
+    loops_c14n_MarshalJSON = [] :=
+  ⟨rfl, rfl, rfl, rfl⟩
+
+/-- c14n Object.Sort: stable, by `<` on the keys (model `sortK`) -/
+theorem c14n_Object_Sort_as_modelled :
+    calls_c14n_Object_Sort =
+      ["SliceStable"] ∧
+    conds_c14n_Object_Sort = [] ∧
+    stmts_c14n_Object_Sort =
+      ["return o.Attributes[i].Key < o.Attributes[j].Key"] ∧
+    loops_c14n_Object_Sort = [] ∧
+    writes_c14n_Object_Sort = [] :=
+  ⟨rfl, rfl, rfl, rfl, rfl⟩
+
+/-- c14n Object.MarshalJSON: `{`, the attributes that marshal to something separated by `,`, `}` (model
+    `marshalK`) -/
+theorem c14n_Object_MarshalJSON_as_modelled :
+    calls_c14n_Object_MarshalJSON =
+      ["WriteByte", "MarshalJSON", "len", "WriteByte", "Write", "WriteByte", "Bytes"] ∧
+    conds_c14n_Object_MarshalJSON =
+      ["err != nil", "len(a) == 0", "!first"] ∧
+    stmts_c14n_Object_MarshalJSON =
+      ["first := true", "a, err := v.MarshalJSON()", "return nil, err", "first = false", "return buf.Bytes(), nil"] ∧
+    loops_c14n_Object_MarshalJSON =
+      ["range o.Attributes"] ∧
+    writes_c14n_Object_MarshalJSON =
+      ["buf.WriteByte('{')", "buf.WriteByte(',')", "buf.Write(a)", "buf.WriteByte('}')"] :=
+  ⟨rfl, rfl, rfl, rfl, rfl⟩
+
+/-- c14n Array.MarshalJSON: `[`, every value in order separated by `,`, `]` — nothing dropped, nothing
+    reordered (model `marshalL`) -/
+theorem c14n_Array_MarshalJSON_as_modelled :
+    calls_c14n_Array_MarshalJSON =
+      ["WriteByte", "WriteByte", "MarshalJSON", "Write", "WriteByte", "Bytes"] ∧
+    conds_c14n_Array_MarshalJSON =
+      ["i > 0", "err != nil"] ∧
+    stmts_c14n_Array_MarshalJSON =
+      ["data, err := v.MarshalJSON()", "return nil, err", "return buf.Bytes(), nil"] ∧
+    loops_c14n_Array_MarshalJSON =
+      ["range a.Values"] ∧
+    writes_c14n_Array_MarshalJSON =
+      ["buf.WriteByte('[')", "buf.WriteByte(',')", "buf.Write(data)", "buf.WriteByte(']')"] :=
+  ⟨rfl, rfl, rfl, rfl, rfl⟩
+
+/-- c14n Attribute.MarshalJSON: nothing for a null value, else key `:` value (model `marshalK`,
+    `attrJoin`) -/
+theorem c14n_Attribute_MarshalJSON_as_modelled :
+    calls_c14n_Attribute_MarshalJSON =
+      ["encodeString", "MarshalJSON", "Write", "WriteByte", "Write", "Bytes"] ∧
+    conds_c14n_Attribute_MarshalJSON =
+      ["_, ok := a.Value.(Null); ok", "err != nil", "err != nil"] ∧
+    stmts_c14n_Attribute_MarshalJSON =
+      ["_, ok := a.Value.(Null)", "return nil, nil", "key, err := encodeString(a.Key)", "return nil, err", "val, err := a.Value.MarshalJSON()", "return nil, err", "return buf.Bytes(), nil"] ∧
+    loops_c14n_Attribute_MarshalJSON = [] ∧
+    writes_c14n_Attribute_MarshalJSON =
+      ["buf.Write(key)", "buf.WriteByte(':')", "buf.Write(val)"] :=
+  ⟨rfl, rfl, rfl, rfl, rfl⟩
+
+/-- c14n String.MarshalJSON is encodeString -/
+theorem c14n_String_MarshalJSON_as_modelled :
+    calls_c14n_String_MarshalJSON =
+      ["encodeString", "string"] ∧
+    conds_c14n_String_MarshalJSON = [] ∧
+    stmts_c14n_String_MarshalJSON =
+      ["return encodeString(string(o))"] ∧
+    loops_c14n_String_MarshalJSON = [] ∧
+    writes_c14n_String_MarshalJSON = [] :=
+  ⟨rfl, rfl, rfl, rfl, rfl⟩
+
+/-- c14n Integer.MarshalJSON: FormatInt base 10 -/
+theorem c14n_Integer_MarshalJSON_as_modelled :
+    calls_c14n_Integer_MarshalJSON =
+      ["FormatInt", "int64"] ∧
+    conds_c14n_Integer_MarshalJSON = [] ∧
+    stmts_c14n_Integer_MarshalJSON =
+      ["return []byte(strconv.FormatInt(int64(i), 10)), nil"] ∧
+    loops_c14n_Integer_MarshalJSON = [] ∧
+    writes_c14n_Integer_MarshalJSON = [] :=
+  ⟨rfl, rfl, rfl, rfl, rfl⟩
+
+/-- c14n Float.MarshalJSON: strconv's shortest 'E' form, the point put in after the first digit — which
+    comes after a minus sign —, the exponent stripped of `+` and leading zeros (model `marshalFloat`) -/
+theorem c14n_Float_MarshalJSON_as_modelled :
+    calls_c14n_Float_MarshalJSON =
+      ["AppendFloat", "float64", "append", "append", "IndexByte", "make", "len", "copy", "len", "append", "append"] ∧
+    conds_c14n_Float_MarshalJSON =
+      ["num[0] == '-'", "num[d] != '.'", "exp[0] == '+'", "v == '-' || v == '+'", "v == '0' && (i+1) < len(exp)", "k != 0"] ∧
+    stmts_c14n_Float_MarshalJSON =
+      ["num := []byte{}", "num = strconv.AppendFloat(num, float64(f), 'E', -1, 64)", "d := 1", "d = 2", "rest := append([]byte(\".0\"), num[d:]...)", "num = append(num[:d], rest...)", "i := bytes.IndexByte(num, 'E')", "exp := make([]byte, len(num)-i-1)", "num = num[:i+1]", "exp = exp[1:]", "j := 0", "k := 0", "j = 1", "k = i + 1", "exp = append(exp[:j], exp[k:]...)", "num = append(num, exp...)", "return num, nil"] ∧
+    loops_c14n_Float_MarshalJSON =
+      ["range exp"] ∧
+    writes_c14n_Float_MarshalJSON = [] :=
+  ⟨rfl, rfl, rfl, rfl, rfl⟩
+
+/-- c14n Null.MarshalJSON -/
+theorem c14n_Null_MarshalJSON_as_modelled :
+    calls_c14n_Null_MarshalJSON = [] ∧
+    conds_c14n_Null_MarshalJSON = [] ∧
+    stmts_c14n_Null_MarshalJSON =
+      ["return []byte(`null`), nil"] ∧
+    loops_c14n_Null_MarshalJSON = [] ∧
+    writes_c14n_Null_MarshalJSON = [] :=
+  ⟨rfl, rfl, rfl, rfl, rfl⟩
+
+/-- c14n Bool.MarshalJSON -/
+theorem c14n_Bool_MarshalJSON_as_modelled :
+    calls_c14n_Bool_MarshalJSON = [] ∧
+    conds_c14n_Bool_MarshalJSON =
+      ["b"] ∧
+    stmts_c14n_Bool_MarshalJSON =
+      ["return []byte(`true`), nil", "return []byte(`false`), nil"] ∧
+    loops_c14n_Bool_MarshalJSON = [] ∧
+    writes_c14n_Bool_MarshalJSON = [] :=
+  ⟨rfl, rfl, rfl, rfl, rfl⟩
+
+/-- c14n encodeString: the bytes written for every character — safe ASCII literally, the seven short
+    escapes each with its own letter, `u00XX` for the other controls, everything else copied (model
+    `encodeString`) -/
+theorem c14n_encodeString_as_modelled :
+    calls_c14n_encodeString =
+      ["WriteByte", "len", "WriteString", "WriteByte", "WriteByte", "WriteByte", "WriteByte", "WriteByte", "WriteByte", "WriteByte", "WriteString", "WriteByte", "WriteByte", "DecodeRuneInString", "ValueOf", "Sprintf", "len", "WriteString", "WriteByte", "Bytes"] ∧
+    conds_c14n_encodeString =
+      ["b := s[i]; b < utf8.RuneSelf", "safeSet[b]", "start < i", "c == utf8.RuneError && size == 1", "start < len(s)"] ∧
+    stmts_c14n_encodeString =
+      ["start := 0", "i := 0", "b := s[i]", "i++", "i++", "start = i", "c, size := utf8.DecodeRuneInString(s[i:])", "return nil, &json.UnsupportedValueError{Value: reflect.ValueOf(s), Str: fmt.Sprintf(\"%q\", s)}", "i += size", "return buf.Bytes(), nil"] ∧
+    loops_c14n_encodeString =
+      ["for i := 0; i < len(s); "] ∧
+    writes_c14n_encodeString =
+      ["buf.WriteByte('\"')", "buf.WriteString(s[start:i])", "buf.WriteByte('\\\\')", "case '\\\\', '\"'", "buf.WriteByte(b)", "case '\\n'", "buf.WriteByte('n')", "case '\\r'", "buf.WriteByte('r')", "case '\\t'", "buf.WriteByte('t')", "case '\\f'", "buf.WriteByte('f')", "case '\\b'", "buf.WriteByte('b')", "default", "buf.WriteString(`u00`)", "buf.WriteByte(hex[b>>4])", "buf.WriteByte(hex[b&0xF])", "buf.WriteString(s[start:])", "buf.WriteByte('\"')"] :=
+  ⟨rfl, rfl, rfl, rfl, rfl⟩
+
+/-- schema.Object.MarshalJSON — what `json.Marshal(e.Document)` runs: the payload as encoding/json
+    writes it, with the *stored* schema id inserted (the model's `doc : J` is this text) -/
+theorem schema_Object_MarshalJSON_as_modelled :
+    calls_schema_Object_MarshalJSON =
+      ["Marshal", "Insert"] ∧
+    conds_schema_Object_MarshalJSON =
+      ["err != nil", "err != nil"] ∧
+    stmts_schema_Object_MarshalJSON =
+      ["data, err := json.Marshal(d.payload)", "return nil, err", "data, err = Insert(d.Schema, data)", "return nil, err", "return data, nil"] ∧
+    loops_schema_Object_MarshalJSON = [] :=
+  ⟨rfl, rfl, rfl, rfl⟩
+
+/-- schema.Object.UnmarshalJSON: the schema id is extracted from the text and kept as it is written, a
+    *fresh* payload instance of exactly that id is created, the whole text is unmarshalled into it -/
+theorem schema_Object_UnmarshalJSON_as_modelled :
+    calls_schema_Object_UnmarshalJSON =
+      ["Extract", "Interface", "Unmarshal", "checkNullElements", "ValueOf"] ∧
+    conds_schema_Object_UnmarshalJSON =
+      ["d.Schema, err = Extract(data); err != nil", "d.Schema == UnknownID", "d.payload == nil", "_, ok := d.payload.(*Object); ok", "err := json.Unmarshal(data, d.payload); err != nil", "err := checkNullElements(reflect.ValueOf(d.payload), 0); err != nil"] ∧
+    stmts_schema_Object_UnmarshalJSON =
+      ["d.Schema, err = Extract(data)", "return err", "return nil", "d.payload = d.Schema.Interface()", "return ErrUnknownSchema", "_, ok := d.payload.(*Object)", "d.payload = nil", "return ErrUnknownSchema", "err := json.Unmarshal(data, d.payload)", "return err", "err := checkNullElements(reflect.ValueOf(d.payload), 0)", "d.payload = nil", "return err", "return nil"] ∧
+    loops_schema_Object_UnmarshalJSON = [] :=
+  ⟨rfl, rfl, rfl, rfl⟩
+
+/-- schema.Extract reads the top-level `$schema` member with encoding/json (member order and depth do
+    not matter) -/
+theorem schema_Extract_as_modelled :
+    calls_schema_Extract =
+      ["new", "Unmarshal"] ∧
+    conds_schema_Extract =
+      ["err := json.Unmarshal(data, def); err != nil"] ∧
+    stmts_schema_Extract =
+      ["def := new(document)", "err := json.Unmarshal(data, def)", "return UnknownID, err", "return def.Schema, nil"] ∧
+    loops_schema_Extract = [] :=
+  ⟨rfl, rfl, rfl, rfl⟩
+
+/-- schema.Insert writes the id as the first member of the payload's object -/
+theorem schema_Insert_as_modelled :
+    calls_schema_Insert =
+      ["Marshal", "TrimLeft", "TrimRight", "Equal", "TrimSpace", "append", "byte", "append"] ∧
+    conds_schema_Insert =
+      ["err != nil", "!bytes.Equal(bytes.TrimSpace(data), []byte(\"}\"))"] ∧
+    stmts_schema_Insert =
+      ["doc := &document{Schema: id}", "sdata, err := json.Marshal(doc)", "return nil, err", "data = bytes.TrimLeft(data, \"{\")", "sdata = bytes.TrimRight(sdata, \"}\")", "sdata = append(sdata, byte(','))", "data = append(sdata, data...)", "return data, nil"] ∧
+    loops_schema_Insert = [] :=
+  ⟨rfl, rfl, rfl, rfl⟩
+
+/-- the registry answers for the exact id only -/
+theorem schema_registry_typeFor_as_modelled :
+    calls_schema_registry_typeFor = [] ∧
+    conds_schema_registry_typeFor =
+      ["id == e.id"] ∧
+    stmts_schema_registry_typeFor =
+      ["return e.typ", "return nil"] ∧
+    loops_schema_registry_typeFor =
+      ["range r.entries"] :=
+  ⟨rfl, rfl, rfl, rfl⟩
+
+/-- ID.Interface: a new value of the registered type, nil for an unknown id -/
+theorem schema_ID_Interface_as_modelled :
+    calls_schema_ID_Interface =
+      ["Type", "Interface", "New"] ∧
+    conds_schema_ID_Interface =
+      ["typ == nil"] ∧
+    stmts_schema_ID_Interface =
+      ["typ := Type(id)", "return nil", "return reflect.New(typ).Interface()"] ∧
+    loops_schema_ID_Interface = [] :=
+  ⟨rfl, rfl, rfl, rfl⟩
+
+/-- the algorithm name of the model is the one constant of the library; a digest travels as
+    `{"alg": …, "val": …}` under `head.dig`, the document under `doc` -/
+theorem digest_names_as_modelled :
+    digestAlgorithms = ["DigestSHA256=sha256"] ∧ algSHA256 = "sha256" ∧
+    digestJSON = ["Algorithm:alg", "Value:val"] ∧ headerDigestJSON = ["Digest:dig"] ∧
+    envelopeJSON = ["Schema:$schema", "Head:head", "Document:doc", "Signatures:sigs,omitempty"] :=
+  ⟨rfl, rfl, rfl, rfl, rfl⟩
+
+/-- the hash is crypto/sha256's one-shot `Sum256` of the data as handed in, written out with
+    encoding/hex (the abstract `Hash.H` of the model; the harness instantiates it with the same two) -/
+theorem hash_is_sha256_of_all_bytes :
+    sha256_imports = ["crypto/sha256", "encoding/hex"] ∧
+    sha256_pkgcalls = ["sha256.Sum256(data)", "hex.EncodeToString(sum[:])"] := ⟨rfl, rfl⟩
+
+/-- the header must carry a digest (model `validate`: no digest is a validation error), and the
+    document is required -/
+theorem digest_and_document_required :
+    GoblVerif.Generated.Head.rules_Digest = ["validation.Required"] ∧
+    GoblVerif.Generated.Envelope.rules_Document = ["validation.Required"] := ⟨rfl, rfl⟩
+
+end Expect
 
 end GoblVerif.Props.C08
